@@ -52,8 +52,8 @@ type scriptedPeer struct {
 	held    []func()       // answers waiting for the next request
 	log     []int
 	answers []int
-	amounts map[int]uint64 // abmf: requested amount of peer request n
-	who     map[int]string // peer request n -> subscription id data of the request
+	amounts map[int]uint64           // abmf: requested amount of peer request n
+	who     map[int]string           // peer request n -> subscription id data of the request
 	slowFor map[string]time.Duration // answers to this subscriber's requests are held that long (within the time-out)
 }
 
